@@ -194,6 +194,7 @@ int32 matrixSslDecodeTls13(ssl_t *ssl,
     psSize_t parsedBytes = 0;
     psBuf_t tmp;
     psBool_t useOutbufForResponse = PS_FALSE;
+    psBool_t recordWasDecrypted = PS_FALSE;
 
     if (ssl->flags & SSL_FLAGS_NEED_ENCODE)
     {
@@ -300,6 +301,7 @@ parse_next_record_header:
     if (DECRYPTING_RECORDS(ssl))
     {
         decryptTo = pb.buf.start; /* In-situ decryption. */
+        recordWasDecrypted = PS_TRUE;
         if (ssl->decrypt(ssl, pb.buf.start, decryptTo, ssl->rec.len) < 0)
         {
             if (MATRIX_IS_SERVER(ssl) &&
@@ -417,16 +419,20 @@ parse_next_record_header:
     /* Deal with the decrypted message. */
     if (innerType == SSL_RECORD_TYPE_HANDSHAKE)
     {
-	unsigned char *p_start = p;
+	unsigned char *p_start;
         end = p + ptLen;
         /* Parse handshake messages until buffer runs out */
         while (p != end)
         {
+            p_start = p;
             rc = tls13ParseHandshakeMessage(ssl,
                     &p, end);
             if (rc < 0)
             {
-                if (DECRYPTING_RECORDS(ssl))
+                /* Skip the trailer of this record. The read keys may have
+                   been activated by a message in this very (plaintext)
+                   record, so do not ask DECRYPTING_RECORDS() here. */
+                if (recordWasDecrypted)
                 {
                     p += TLS_GCM_TAG_LEN;
                     p += 1;
